@@ -13,16 +13,25 @@ func NewEventData(root *insaneJSON.Root) eventData {
 }
 
 func (d eventData) Get(path ...string) []byte {
-	var data []byte
+	data, isContainer := d.get(path...)
+	if isContainer {
+		return make([]byte, 1)
+	}
+	return data
+}
+
+// get returns the bytes of a scalar value; arrays and objects are reported
+// through isContainer, they have no byte representation.
+func (d eventData) get(path ...string) (data []byte, isContainer bool) {
 	if d.root == nil {
-		return nil
+		return nil, false
 	}
 	node := d.root.Dig(path...)
 	if node.IsArray() || node.IsObject() {
-		return make([]byte, 1)
+		return nil, true
 	}
 	if !node.IsNull() {
 		data = node.AsBytes()
 	}
-	return data
+	return data, false
 }
